@@ -178,15 +178,38 @@ func runRing(c ringCase, rep *batch.Report) batch.CaseResult {
 		for _, key := range targets {
 			want := ringlab.OwnerOf(ids, key)
 			got, err := start.Node.FindSuccessor(key)
-			// over the real RPC path the production 10 s RPC timeout is a wall-clock event: on a
-			// saturated machine it fires on a healthy ring. It never decides: the lookup is
-			// repeated, and one that keeps timing out is counted as indeterminate.
-			for try := 0; c.RPC && err != nil && strings.Contains(err.Error(), "context deadline exceeded") && try < 2; try++ {
-				rep.Count("rpc_lookups_repeated_after_transport_timeout", 1)
+			// A lookup is specified on a stabilised ring. Two things can take a ring out of that state
+			// without any membership change, both seen only on a saturated machine: (1) a stabilize round
+			// that was preempted between computing its list and storing it lands after a newer round and
+			// puts an older successor list back for one round (self-healing; every wiring); (2) over the
+			// real RPC path the production failure detector and time-outs (RPC 10 s, ping 3 s) suspect a
+			// healthy node, or a request dies in the transport. So a wrong or failed lookup is judged only
+			// if the pointers still equal the sorted-ring oracle right after it; otherwise the ring gets
+			// its rounds to settle again and the lookup is repeated (at most 3 times); a lookup that never
+			// ran on a stable ring is counted as indeterminate. A wrong answer with the pointers in
+			// place is a violation in every wiring.
+			indeterminate := false
+			for try := 0; try < 3; try++ {
+				wrong := err != nil || got == nil || got.ID() != want
+				if !wrong {
+					break
+				}
+				transportErr := c.RPC && err != nil && (strings.Contains(err.Error(), "context deadline exceeded") || strings.Contains(err.Error(), "failed to do request"))
+				if !transportErr && lab.PointerDiff(true) == "" {
+					break // stable ring, wrong answer: judged below
+				}
+				rep.Count("lookups_repeated(ring_had_left_the_stable_state_or_transport_failure)", 1)
+				if cv2 := lab.WaitConverged(6*n+20, 60*time.Second, true); !cv2.Converged {
+					indeterminate = true
+					break
+				}
 				got, err = start.Node.FindSuccessor(key)
+				if try == 2 && (err != nil || got == nil || got.ID() != want) && (transportErr || lab.PointerDiff(true) != "") {
+					indeterminate = true
+				}
 			}
-			if c.RPC && err != nil && strings.Contains(err.Error(), "context deadline exceeded") {
-				rep.Count("rpc_lookups_indeterminate_transport_timeout", 1)
+			if indeterminate {
+				rep.Count("lookups_indeterminate(no_stable_ring_to_ask)", 1)
 				continue
 			}
 			lookups++
@@ -210,8 +233,21 @@ func runRing(c ringCase, rep *batch.Report) batch.CaseResult {
 				if got != nil {
 					g = got.ID()
 				}
+				diag := map[string]any{"pointer_diff_right_after": lab.PointerDiff(true)}
+				for _, id := range []uint64{want, ringlab.ExpectFor(ids, want).Pred} {
+					if m := lab.Member(id); m != nil {
+						vp := m.Node.VerifPointers()
+						diag[fmt.Sprintf("node_%d", id)] = map[string]any{"state": m.State().String(), "history": fmt.Sprint(m.Node.VerifStateHistory()), "pred": vp.Predecessor, "succs": vp.Successors}
+					}
+				}
+				if got != nil {
+					if m := lab.Member(got.ID()); m != nil {
+						vp := m.Node.VerifPointers()
+						diag[fmt.Sprintf("node_%d", got.ID())] = map[string]any{"state": m.State().String(), "pred": vp.Predecessor, "succs": vp.Successors}
+					}
+				}
 				res.Violations = append(res.Violations, batch.Viol{Key: "wrong-owner", What: fmt.Sprintf("ring %v: FindSuccessor(%d) from %d = %v, owner is %d", ids, key, start.ID, g, want),
-					Witness: map[string]any{"ring": ids, "start": start.ID, "key": key, "want": want, "got": g, "netv": c.NetV}})
+					Witness: map[string]any{"ring": ids, "start": start.ID, "key": key, "want": want, "got": g, "netv": c.NetV, "rpc": c.RPC, "diagnosis": diag}})
 			}
 		}
 		if len(res.Violations) > 20 {
